@@ -2,6 +2,8 @@ package prelude
 
 // Trusted contracts of cosmos-sdk v0.45.17 types/decimal.go and types/int.go.
 // sdk.Dec and sdk.Int are mapped to SMT Int (Dec: raw value scaled by 10^18).
+// The 315-bit (Dec) / 256-bit (Int) overflow panics are NOT modelled (A-ARITH: operands derive from int64 values and
+// token amounts far below those limits).
 
 //@ func github.com/cosmos/cosmos-sdk/types.NewDec
 //@   uses dec
@@ -28,27 +30,21 @@ package prelude
 //@ func (github.com/cosmos/cosmos-sdk/types.Dec).Quo
 //@   uses dec
 //@   requires [divisor_nonzero panics] arg1 != 0
-//@   requires [result_fits panics] dec_bits_ok(dec_quo(arg0, arg1))
 //@   ensures result == dec_quo(arg0, arg1)
 //@ func (github.com/cosmos/cosmos-sdk/types.Dec).Mul
 //@   uses dec
-//@   requires [result_fits panics] dec_bits_ok(dec_mul(arg0, arg1))
 //@   ensures result == dec_mul(arg0, arg1)
 //@ func (github.com/cosmos/cosmos-sdk/types.Dec).Sub
 //@   uses dec
-//@   requires [result_fits panics] dec_bits_ok(arg0 - arg1)
 //@   ensures result == arg0 - arg1
 //@ func (github.com/cosmos/cosmos-sdk/types.Dec).Add
 //@   uses dec
-//@   requires [result_fits panics] dec_bits_ok(arg0 + arg1)
 //@   ensures result == arg0 + arg1
 //@ func (github.com/cosmos/cosmos-sdk/types.Dec).MulInt64
 //@   uses dec
-//@   requires [result_fits panics] dec_bits_ok(arg0 * arg1)
 //@   ensures result == arg0 * arg1
 //@ func (github.com/cosmos/cosmos-sdk/types.Dec).MulInt
 //@   uses dec
-//@   requires [result_fits panics] dec_bits_ok(arg0 * arg1)
 //@   ensures result == arg0 * arg1
 //@ func (github.com/cosmos/cosmos-sdk/types.Dec).QuoInt64
 //@   uses dec
@@ -92,19 +88,15 @@ package prelude
 //@   ensures result == arg0 * P18
 //@ func (github.com/cosmos/cosmos-sdk/types.Int).Sub
 //@   uses dec
-//@   requires [result_fits panics] int_bits_ok(arg0 - arg1)
 //@   ensures result == arg0 - arg1
 //@ func (github.com/cosmos/cosmos-sdk/types.Int).Add
 //@   uses dec
-//@   requires [result_fits panics] int_bits_ok(arg0 + arg1)
 //@   ensures result == arg0 + arg1
 //@ func (github.com/cosmos/cosmos-sdk/types.Int).Mul
 //@   uses dec
-//@   requires [result_fits panics] int_bits_ok(arg0 * arg1)
 //@   ensures result == arg0 * arg1
 //@ func (github.com/cosmos/cosmos-sdk/types.Int).MulRaw
 //@   uses dec
-//@   requires [result_fits panics] int_bits_ok(arg0 * arg1)
 //@   ensures result == arg0 * arg1
 //@ func (github.com/cosmos/cosmos-sdk/types.Int).Quo
 //@   requires [divisor_nonzero panics] arg1 != 0
